@@ -15,7 +15,7 @@ VERIF = os.path.dirname(os.path.dirname(os.path.abspath(__file__)))
 T = os.path.join(VERIF, "specs", "templates")
 TB = os.path.join(VERIF, "specs", "tables")
 
-ALPHABET = "abcdefghijklmnopqrstuvwxyz-'àâäçéèêëîïôöùûüáíóúñãõìòßij "
+ALPHABET = "abcdefghijklmnopqrstuvwxyz-'àâäçéèêëîïôöùûüáíóúñãõìòßij ,"
 
 
 def wname(w):
@@ -154,6 +154,10 @@ def emit_rows(c, rows, word_facts, row_stmt, nmod=8, props="C01, C04, C08, C16",
         b.append(f"        {c}_ne_{wname(lw)}(); lemma_{c}_word_{k}(); reveal({c}_status);")
         b.append("    }")
     o = []
+    for k, r in enumerate(rows):
+        if r["word"] == ",":
+            o.append(f"/// a comma is refused by the interpreter, and not as `incomplete`")
+            o.append(f"pub proof fn lemma_{c}_comma(o: DsView) ensures {row_stmt(r)} {{ {c}_rows_{k % nmod}::lemma_{c}_row_{k}(o); }}")
     for i, b in enumerate(mods):
         o.append(f"pub mod {c}_rows_{i} {{")
         o.append("    use vstd::prelude::*; use super::*;")
@@ -220,7 +224,11 @@ def english():
                    f"assert(en_marker_kind({W(w)}) == {kind}) by(compute_only);"]
         return ens, asserts, l
 
+    rows.append({"word": ",", "instr": None, "marker": None, "expect": None, "desc": "a comma is never a number word (it ends the number in progress)"})
+
     def row_stmt(r):
+        if r["word"] == ",":
+            return f"!en_model({W(',')}, o).ok && !(en_model({W(',')}, o).err is Incomplete)"
         return f"en_row({r['instr']}, {KIND[r['marker']]}, o, en_model({W(r['word'])}, o))"
     extra = ["seconds", "th", "ths", "first", "second", "third", "thirds", "st", "nd", "rd", "rds", "point", "-", ""]
     allwords = set(w for ws, _, _ in arms for w in ws) | set(r["word"] for r in rows) | set(lemma_of(r["word"]) for r in rows) | set(extra)
@@ -310,7 +318,11 @@ def spanish():
         asserts = [f"assert(es_lemma({W(w)}) =~= {W(l)}) by(compute_only);", f"assert(es_marker_kind({W(w)}) == {k}) by(compute_only);"]
         return ens, asserts, l
 
+    rows.append({"word": ",", "digits": "", "kind": "comma", "marker": None, "expect": None, "desc": "a comma is never a number word (it ends the number in progress)"})
+
     def row_stmt(r):
+        if r["word"] == ",":
+            return f"!es_model({W(',')}, o).ok && !(es_model({W(',')}, o).err is Incomplete)"
         want = 6 if r["kind"] == "f" else WANT[r["marker"]]
         unit_guarded = r["kind"] == "c" and len(r["digits"]) == 1 and r["digits"] != "0"
         needs_ord = lemma_of(r["word"]) == "segundo"   # "segundo" is also the time unit: only read as 2 inside an ordinal
@@ -387,7 +399,11 @@ def french():
         asserts = [f"assert(fr_lemma({W(w)}) =~= {W(l)}) by(compute_only);", f"assert(fr_marker_kind({W(w)}) == {k}) by(compute_only);"]
         return ens, asserts, l
 
+    rows.append({"word": ",", "kind": "comma", "digits": "", "expect": None, "desc": "a comma is never a number word (it ends the number in progress)"})
+
     def row_stmt(r):
+        if r["word"] == ",":
+            return f"!fr_model({W(',')}, o).ok && !(fr_model({W(',')}, o).err is Incomplete)"
         k = marker_kind(r["word"])
         kind = r["kind"]
         if kind in ("put", "ten"):
